@@ -349,6 +349,22 @@ def mutate(rng, root, layout, info, klass):
             e['sums'] = {k: v.upper() for k, v in e['sums'].items()}
             rec['hashes'] = sorted(e['sums'])
         rec['path'] = f
+    elif klass == 'm-dist-same-name':
+        # a distfile called exactly like a file that the same Manifest lists (the
+        # unpacked-next-to-its-tarball situation): DIST and DATA are different things
+        cands = []
+        for f in files:
+            for mp, e in _file_entries(layout, info, f):
+                if '/' not in e['path'] and e['tag'] != 'AUX':
+                    cands.append((f, mp, e))
+        if not cands:
+            return None
+        f, mp, e = rng.choice(cands)
+        layout['mans'][mp]['entries'].insert(
+            rng.randrange(len(layout['mans'][mp]['entries']) + 1),
+            {'tag': 'DIST', 'path': e['path'], 'size': 4242,
+             'sums': {'SHA512': '%0128x' % rng.getrandbits(512)}})
+        rec['path'] = f
     elif klass == 'm-dist-twin':
         # two DIST entries with one name but different size / digests in one Manifest
         m = rng.choice(sorted(layout['mans']))
